@@ -1,6 +1,6 @@
 CONSTANTS
   NS = 2
-  MaxNonce = 3
+  MaxNonce = 2
   MaxEpoch = 1
   NK = 2
   EL = 1
